@@ -82,6 +82,8 @@ type ResponseSpec struct {
 	Issuer                                 *string
 	StatusCode                             *string // nil: no Status element; "": Status without StatusCode? see NoStatusCode
 	NoStatusCode                           bool
+	StatusInner                            []string // second-level status codes nested below the top-level StatusCode (SAML core 3.2.2.2), outermost first
+	StatusMessage                          string   // optional samlp:StatusMessage after the StatusCode
 	Assertions                             []*AssertionSpec
 	SignedBy                               *SignOpts
 	Style                                  nsStyle
@@ -385,7 +387,15 @@ func buildMessage(rs *ResponseSpec) *etree.Element {
 	if rs.StatusCode != nil || rs.NoStatusCode {
 		s := root.CreateElement(st.p("Status"))
 		if !rs.NoStatusCode {
-			s.CreateElement(st.p("StatusCode")).CreateAttr("Value", *rs.StatusCode)
+			sc := s.CreateElement(st.p("StatusCode"))
+			sc.CreateAttr("Value", *rs.StatusCode)
+			for _, v := range rs.StatusInner {
+				sc = sc.CreateElement(st.p("StatusCode"))
+				sc.CreateAttr("Value", v)
+			}
+			if rs.StatusMessage != "" {
+				s.CreateElement(st.p("StatusMessage")).SetText(rs.StatusMessage)
+			}
 		}
 	}
 	return root
